@@ -7,7 +7,7 @@ from engine.cfg import cond_holds, decompose
 from engine.effects import store_field
 from engine.facts import stores_in
 from engine.hierarchy import PARAMETER
-from engine.loader import norm
+from engine.loader import AnalysisError, norm
 
 
 def has(conds, text, truth):
@@ -25,6 +25,8 @@ def run(ctx):
     ctx.rule("R14.h", "only edit_constant clears a constant flag: no other function of param/numbergen assigns `<parameter>.constant = False`", floor=1)
     ctx.rule("R14.i", "edit_constant restores the very Parameter objects it unlocked (by identity), not only whatever a by-name lookup finds on exit", floor=1)
     ctx.rule("R14.c", "Parameterized.name is declared constant; Parameter.__init__ sets constant whenever readonly is true", floor=2)
+    ctx.rule("R14.l", "as_uninitialized (the decorator behind _setup_params, _set_name, _generate_name) leaves the `initialized` flag as it found it: its wrapper, interpreted abstractly with the flag "
+                      "set / cleared on entry, restores exactly that value after the wrapped call (an object left uninitialized accepts assignments to its constants)", floor=1)
     ctx.rule("R14.m", "setter model: Parameter.__set__ interpreted abstractly on every combination (576) of route x constant/readonly x validation outcome x identity x reference mode x watchers x batching agrees with the specification of this property (see checks/setter_model.py)", floor=1)
     ctx.rule("R14.k", "constructor model: Parameters._setup_params (with _instantiate_param) interpreted abstractly on 288 combinations of keywords x reference modes (plain value / reference with a value / reference without a value yet / asynchronous reference) x an unknown keyword: own copy of every instantiate=True default and pinned constants before any keyword is applied (and still there when a keyword assigns nothing), exactly the specified assignments, every reference and only references recorded", floor=1)
     ctx.not_decided += ["histories involving per-instance Parameter copies created earlier", "as_uninitialized (deliberately not armed, see C05 exclusions)"]
@@ -234,6 +236,43 @@ def run(ctx):
                  "copies the inherited Parameter), the object that was unlocked -- the ancestor's Parameter -- stays constant=False for good",
                  key=ec_.qualname + "::restore-by-name-only",
                  input="class B(A) inherits constant x; with edit_constant(B()): B.x = 5  ->  A.param.x.constant is False afterwards")
+
+    # ---------------------------------------------------------------- R14.l
+    from engine.absint import Interp as _I, Obj as _O, PyFunc as _PF, Unsupported as _U
+    wrappers = [g for g in ctx.repo.all_funcs("param.parameterized") if g.qualname.startswith("param.parameterized.as_uninitialized.")]
+    ctx.require(wrappers, "as_uninitialized no longer defines a wrapper function")
+    wf = wrappers[0]
+    badl = None
+    for before in (True, False):
+        priv = _O("private", initialized=before)
+        nsl = _O("ns", self=_O("instance", _param__private=priv))
+        seen_flag = []
+        it_l = _I(ctx.hier)
+        env_l = {wf.params[0]: nsl, "fn": _PF("wrapped", lambda *a, **k: seen_flag.append(priv.attrs["initialized"]))}
+        if wf.node.args.vararg:
+            env_l[wf.node.args.vararg.arg] = ()
+        if wf.node.args.kwarg:
+            env_l[wf.node.args.kwarg.arg] = {}
+        try:
+            outs = it_l.run_all(wf, env_l)
+        except _U as e:
+            raise AnalysisError("absint cannot interpret the wrapper of as_uninitialized: %s -- R14.l cannot decide" % e)
+        ctx.abstract_cases += 1
+        if len(outs) != 1 or outs[0].imprecise or outs[0].kind != "return":
+            raise AnalysisError("absint imprecise on the wrapper of as_uninitialized -- R14.l cannot decide")
+        if seen_flag != [False]:
+            badl = "the wrapped function runs %d time(s) with initialized=%s (specification: once, with the flag cleared)" % (len(seen_flag), seen_flag[:1])
+        elif priv.attrs["initialized"] is not before:
+            badl = "an object that was %s before the call is left %s: %s" % (
+                "initialized" if before else "uninitialized", "initialized" if priv.attrs["initialized"] else "uninitialized",
+                "all its constants (including name) accept plain assignments from then on" if before else "it is marked constructed too early")
+        if badl:
+            break
+    if badl:
+        ctx.fail("R14.l", wf, wf.node, "as_uninitialized: " + badl, key=wf.qualname + "::flag-not-restored",
+                 input="a Parameterized value of an instantiate=True parameter is renamed through _generate_name on every new owner: the copy stays uninitialized")
+    else:
+        ctx.ok("R14.l", wf, wf.node, "2/2: the wrapped call sees the flag cleared, the flag is put back as found")
 
     # model-level rule, run last (see DESIGN §10)
     from checks import setter_model
